@@ -13,6 +13,9 @@ for f in src['findings']:
     what=f['what']
     if what.startswith('property='+prop+' '): what=what[len('property='+prop+' '):]
     e={"property":prop,"signature":f['signature'],"status":"known","what":what,"example":f.get('example')}
+    if f.get('status')=='fixed' and f.get('commit'):
+        e['status']='fixed'; e['commit']=f['commit']
+        if not what.startswith('fixed:'): e['what']=f"fixed: property={prop} {f['commit']} {what}"
     for sub,commit in fixed:
         if sub in f['signature']:
             e['status']='fixed'; e['commit']=commit; e['what']=f"fixed: property={prop} {commit} {what}"
